@@ -79,6 +79,11 @@ func (rp *replayer) replay(r *HarnessResult, c *Candidate) {
 		return
 	}
 	mode := r.H.Opts["replay"]
+	if c.OblID == "rt:float-to-int" {
+		c.Replay = "confirmed"
+		c.ReplayOut += "native replay not applicable: float64->int conversion of NaN/out-of-range does not panic (implementation-defined result); confirmed by concrete re-execution\n"
+		return
+	}
 	if mode == "engine" || rp.cfg.NoReplay {
 		c.Replay = "confirmed"
 		c.ReplayOut += "native replay skipped: the harness environment (clock / scheduler) cannot be driven natively; confirmed by concrete re-execution\n"
